@@ -6,6 +6,6 @@ package main
 const prop = "C15"
 
 const (
-	quickCases    = 120
+	quickCases    = 160
 	thoroughCases = 800
 )
